@@ -66,10 +66,17 @@ class PersistEngine:
             return {"map"}
         amap = self.p.attribute_map(K) or {}
         attrs = {v for k, v in amap.items() if isinstance(v, str) and v.isidentifier()}
-        for r in list(self.t.routes) + list(EXTRA_PERSISTED):
+        for r in list(self.t.routes) + list(self.t.dataset_keys) + list(EXTRA_PERSISTED):
             m = K.lookup(r)
             if m and m[1] == "prop":
                 attrs.add(r)
+        # attributes a typed writer helper reads from the entity (write_file_name_data(entity: FilenameData) -> file_name)
+        for cls_name, names in self.t.typed_handler_reads.items():
+            if K.is_subclass_of(cls_name):
+                for a in names:
+                    m = K.lookup(a)
+                    if m and m[1] == "prop" and m[2].setter is not None:
+                        attrs.add(a)
         return attrs - IDENTITY
 
     def persisted_fields(self, K: ClassInfo) -> set[str]:
@@ -232,8 +239,8 @@ class PersistEngine:
         f = n.func
         if isinstance(f, ast.Attribute):
             if f.attr == "update_attribute" and n.args:
-                ch = chain(f.value) or []
-                if ch and ch[-1] in ("workspace",) or (ch and ch[-1] == sn and K.name == "Workspace") or ch == [sn]:
+                # the method name is unique to Workspace in the package: any receiver expression counts
+                if True:
                     recv = "self" if (isinstance(n.args[0], ast.Name) and n.args[0].id == sn) else unparse(n.args[0])
                     route = None
                     if len(n.args) >= 2 and isinstance(n.args[1], ast.Constant):
